@@ -1,1 +1,283 @@
-/- C13 — property theorems (stub: the slice is not built yet). -/
+import GB.C13.Proofs
+/-
+  C13 — streamed responses are framed one message per record in the transport's format.
+  Property theorems only; lemmas live in Proofs.lean, the model in Model.lean, the client-side
+  readers (`splitLines`, `parseSSE`) in Spec.lean.
+-/
+set_option linter.unusedSimpArgs false
+set_option linter.unusedVariables false
+open GB GB.C13
+
+/-! ## HTTP: record splitting is lossless -/
+
+/-- Newline-delimited JSON: a client that cuts the body at line feeds reads back exactly the
+    payloads, one record per message, in order — for every number of messages and every payload
+    without a raw line feed (assumption on the marshaler's compact output, checked on every run). -/
+theorem C13_lines (bs : List Bytes) (h : ∀ b ∈ bs, LF ∉ b) :
+    splitLines (streamBody false bs) = bs := by
+  unfold splitLines
+  exact splitLines_stream bs (fun b hb x hx e => h b hb (e ▸ hx))
+
+/-- The assumption is necessary: a payload with a raw line feed is read as two records.
+    (This is what `json.MarshalIndent` did to list/map bodies before the fix.) -/
+theorem C13_lines_fails_on_raw_newline :
+    splitLines (streamBody false [[91, 10, 93]]) = [[91], [93]] := by decide
+
+/-- Server-Sent Events: a WHATWG-conformant event-stream reader dispatches exactly the payloads,
+    one event per message, in order — for payloads without raw LF/CR and not starting with a space. -/
+theorem C13_sse (bs : List Bytes) (h : ∀ b ∈ bs, LF ∉ b ∧ CR ∉ b ∧ b.head? ≠ some SP) :
+    parseSSE (streamBody true bs) = bs := by
+  unfold parseSSE
+  have := sse_stream bs [] (fun b hb => ⟨fun x hx => ⟨fun e => (h b hb).1 (e ▸ hx), fun e => (h b hb).2.1 (e ▸ hx)⟩, (h b hb).2.2⟩)
+  have h0 : sseInit = cleanSt [] := rfl
+  rw [h0, this]
+  simp [cleanSt]
+
+/-- With a multi-line payload only the first line reaches the SSE client. -/
+theorem C13_sse_fails_on_raw_newline :
+    parseSSE (streamBody true [[91, 10, 93]]) = [[91]] := by decide
+
+example : splitLines (streamBody false [[123, 125], [], [34, 92, 110, 34]]) = [[123, 125], [], [34, 92, 110, 34]] := by decide
+example : parseSSE (streamBody true [[123, 125], [], [100, 97, 116, 97, 58]]) = [[123, 125], [], [100, 97, 116, 97, 58]] := by decide
+
+/-! ## SSE negotiation, refusals, Content-Type -/
+
+/-- SSE is negotiated iff `Accept` carries `text/event-stream` and no marshaler matched `Accept`. -/
+theorem C13_sse_negotiation (ms : List Marshaler) (d : Marshaler) (r : BindReq) (b : Bound)
+    (h : bind ms d r = .ok b) :
+    b.isSSE = true ↔ (sseMime ∈ r.accept ∧ ∀ a ∈ r.accept, lookup ms a = none) := by
+  unfold GB.C13.bind at h
+  cases hp : pickRequest ms d r.contentType with
+  | error e => simp [hp] at h
+  | ok m =>
+    simp only [hp] at h
+    split at h
+    · simp at h
+    · split at h
+      · simp at h
+      · simp only [Except.ok.injEq] at h
+        subst h
+        simp only [Bool.and_eq_true, Option.isNone_iff_eq_none, List.contains_iff_mem, pickResponse,
+          List.findSome?_eq_none_iff]
+        exact ⟨fun ⟨a, b⟩ => ⟨b, a⟩, fun ⟨a, b⟩ => ⟨b, a⟩⟩
+
+/-- SSE asked for a client-streaming or non-server-streaming method is refused with
+    InvalidArgument (HTTP 400), whatever else the request says. -/
+theorem C13_sse_refused (ms : List Marshaler) (d : Marshaler) (r : BindReq) (m : Marshaler)
+    (hreq : pickRequest ms d r.contentType = .ok m)
+    (hacc : sseMime ∈ r.accept) (hnone : ∀ a ∈ r.accept, lookup ms a = none)
+    (hm : r.cs = true ∨ r.ss = false) :
+    ∃ e, bind ms d r = .error e ∧ (e = .sseClientStreaming ∨ e = .sseNotServerStreaming) ∧ bindErrStatus e = 400 := by
+  have hpr : pickResponse ms r.accept = none := by
+    simp only [pickResponse, List.findSome?_eq_none_iff]; exact hnone
+  have hc : r.accept.contains sseMime = true := by simp [hacc]
+  unfold GB.C13.bind
+  simp only [hreq, hpr, Option.isNone_none, hc, Bool.and_self, Bool.true_and]
+  by_cases hcs : r.cs = true
+  · exact ⟨.sseClientStreaming, by simp [hcs], Or.inl rfl, rfl⟩
+  · have hss : r.ss = false := by rcases hm with h | h; exact absurd h hcs; exact h
+    exact ⟨.sseNotServerStreaming, by simp [hcs, hss], Or.inr rfl, rfl⟩
+
+/-- …and it is accepted, as SSE, for a server-streaming method. -/
+theorem C13_sse_accepted (ms : List Marshaler) (d : Marshaler) (r : BindReq) (m : Marshaler)
+    (hreq : pickRequest ms d r.contentType = .ok m)
+    (hacc : sseMime ∈ r.accept) (hnone : ∀ a ∈ r.accept, lookup ms a = none)
+    (hcs : r.cs = false) (hss : r.ss = true) :
+    bind ms d r = .ok { reqM := m, respM := m, isSSE := true } := by
+  have hpr : pickResponse ms r.accept = none := by
+    simp only [pickResponse, List.findSome?_eq_none_iff]; exact hnone
+  have hc : r.accept.contains sseMime = true := by simp [hacc]
+  unfold GB.C13.bind
+  simp [hreq, hpr, hc, hcs, hss, hacc]
+
+/-- An SSE response is served as `text/event-stream` (the fixed `ContentType`). -/
+theorem C13_sse_content_type (b : Bound) (h : b.isSSE = true) : responseContentType b = sseMime := by
+  simp [responseContentType, h]
+
+/-- D15: before the fix the SSE stream carried the marshaler's Content-Type. -/
+theorem C13_sse_content_type_prefix_fails :
+    ∃ b : Bound, b.isSSE = true ∧ responseContentTypePreFix b = jsonMime ∧ jsonMime ≠ sseMime :=
+  ⟨{ reqM := ⟨jsonMime, false, true⟩, respM := ⟨jsonMime, false, true⟩, isSSE := true }, rfl, rfl, by decide⟩
+
+/-- End to end on the bridge model: a negotiated SSE call that sends `ps ≠ []` answers 200,
+    `text/event-stream`, and a body a conformant client reads back as exactly `ps`. -/
+theorem C13_http_sse_stream (ms : List Marshaler) (d : Marshaler) (r : BindReq) (m : Marshaler) (e : End)
+    (ps : List Bytes) (hreq : pickRequest ms d r.contentType = .ok m) (hstream : m.stream = true)
+    (hacc : sseMime ∈ r.accept) (hnone : ∀ a ∈ r.accept, lookup ms a = none)
+    (hcs : r.cs = false) (hss : r.ss = true) (hne : ps ≠ [])
+    (hsafe : ∀ b ∈ ps, LF ∉ b ∧ CR ∉ b ∧ b.head? ≠ some SP) (whole : Bool) :
+    ∃ body, httpOutcome ms d r whole ps e = { status := 200, ct := some sseMime, body := some body } ∧
+      parseSSE body = ps := by
+  refine ⟨streamBody true ps, ?_, C13_sse ps hsafe⟩
+  unfold httpOutcome
+  rw [C13_sse_accepted ms d r m hreq hacc hnone hcs hss]
+  simp only [hcs, Bool.false_eq_true, ↓reduceIte, hss, hstream, Bool.not_true, responseContentType]
+  cases ps with
+  | nil => exact absurd rfl hne
+  | cons p rest => cases e <;> rfl
+
+/-! ## WebSocket, client → target: the hand-off between the read loop and `Recv` -/
+
+/-- Safety, for every interleaving of client writes, read loop, `Recv`, cancellation and close:
+    what has reached the request transcoder is always a prefix of the frames the property
+    allows — the client's frames in order (client streaming), only the first (otherwise), up to
+    the first refused frame. Nothing is duplicated, reordered or invented. -/
+theorem C13_ws_in_safe (cfg : Cfg) (s : St) (h : GB.LTS.Reachable (step cfg) init s) :
+    s.delivered <+: expectedDelivered cfg s.sent := by
+  have inv := inv_reachable cfg s h
+  unfold expectedDelivered
+  have h1 : s.delivered <+: (effective cfg s.consumed).takeWhile (frameOK cfg) :=
+    prefix_takeWhile _ _ _ inv.pre inv.allOK
+  have h2 : effective cfg s.consumed <+: effective cfg s.sent :=
+    effective_prefix cfg _ _ (by rw [inv.hist]; exact List.prefix_append _ _)
+  exact List.IsPrefix.trans h1 (takeWhile_prefix_mono _ _ _ h2)
+
+/-- No loss while the call is live: once the read loop has caught up (nothing pending, no
+    `OnMessage` in flight) and the call has neither ended nor failed, *every* allowed frame has
+    been delivered: all client frames for client streaming, exactly the first one otherwise. -/
+theorem C13_ws_in_complete (cfg : Cfg) (s : St) (h : GB.LTS.Reachable (step cfg) init s)
+    (hp : s.pending = []) (hr : ∀ f, s.reader ≠ .offering f) (hd : s.done = false) (hres : s.result = none) :
+    s.delivered = effective cfg s.sent := by
+  have inv := inv_reachable cfg s h
+  have : s.sent = s.consumed := by rw [inv.hist, hp]; simp
+  rw [this]
+  exact inv.flightN hr hd hres
+
+/-- The two readings of `effective`: the property's "each client message becomes one request
+    message (only the first for non-client-streaming methods)". -/
+theorem C13_ws_in_client_streaming (cfg : Cfg) (fs : List Frame) (h : cfg.cs = true) : effective cfg fs = fs := by
+  simp [effective, h]
+
+theorem C13_ws_in_first_only (cfg : Cfg) (fs : List Frame) (h : cfg.cs = false) (hb : cfg.body = true) :
+    effective cfg fs = fs.take 1 := by
+  simp [effective, h, hb]
+
+/-- A binding without request body never consumes a frame as a request: the single request
+    message is built without waiting (`Recv` does not wait when no body is expected). -/
+theorem C13_ws_in_no_body (cfg : Cfg) (s : St) (h : GB.LTS.Reachable (step cfg) init s)
+    (hcs : cfg.cs = false) (hb : cfg.body = false) : s.delivered = [] ∧ s.emptyBodies ≤ 1 := by
+  have inv := inv_reachable cfg s h
+  constructor
+  · have := inv.pre
+    simpa [effective, hcs, hb] using this
+  · have := inv.calls1 hcs
+    have := inv.empt
+    omega
+
+/-- A frame of the wrong type ends the call with close code 1003: when `Recv` has returned the
+    wrong-type error, the frames before the offending one (and only those) were delivered, the
+    offending frame is the first refused frame of the client's sequence, and the close frame
+    built from that error carries 1003 and the gRPC code InvalidArgument. -/
+theorem C13_ws_wrong_type_1003 (cfg : Cfg) (s : St) (h : GB.LTS.Reachable (step cfg) init s)
+    (hres : s.result = some .wrongType) :
+    s.delivered = expectedDelivered cfg s.sent ∧
+    (∃ f, firstBad cfg s.sent = some f ∧ typeOK cfg f = false) ∧
+    (closeFrame (.wrongType cfg.expectBinary)).1 = 1003 ∧
+    reasonPrefix 3 <+: (closeFrame (.wrongType cfg.expectBinary)).2 := by
+  have inv := inv_reachable cfg s h
+  obtain ⟨f, hf, hbad⟩ := inv.badType hres
+  have hsent : s.delivered ++ [f] <+: effective cfg s.sent :=
+    List.IsPrefix.trans hf (effective_prefix cfg _ _ (by rw [inv.hist]; exact List.prefix_append _ _))
+  have hfo : frameOK cfg f = false := by simp [frameOK, hbad]
+  have := takeWhile_of_bad (frameOK cfg) _ _ f hsent inv.allOK hfo
+  refine ⟨this.1.symm, ⟨f, this.2, hbad⟩, ?_, ?_⟩
+  · rw [closeFrame_reason]; rfl
+  · rw [closeFrame_reason]
+    simp only [websocketError]
+    apply closeReason_keeps_prefix _ _ (reasonPrefix_short 3 (by decide))
+    intro hlen
+    exfalso
+    have hshort : ∀ eb : Bool, (reasonPrefix 3 ++ (if eb then msgExpectedBinary else msgExpectedText)).length ≤ 123 := by decide
+    have := hshort cfg.expectBinary
+    omega
+
+/-- The same for a payload the request transcoder rejects: delivered = everything before it. -/
+theorem C13_ws_in_refused_exact (cfg : Cfg) (s : St) (h : GB.LTS.Reachable (step cfg) init s)
+    (hres : s.result = some .wrongType ∨ s.result = some .transcode) :
+    s.delivered = expectedDelivered cfg s.sent ∧ (firstBad cfg s.sent).isSome = true := by
+  have inv := inv_reachable cfg s h
+  obtain ⟨f, hf, hbad⟩ := inv.bad hres
+  have hsent : s.delivered ++ [f] <+: effective cfg s.sent :=
+    List.IsPrefix.trans hf (effective_prefix cfg _ _ (by rw [inv.hist]; exact List.prefix_append _ _))
+  have := takeWhile_of_bad (frameOK cfg) _ _ f hsent inv.allOK hbad
+  exact ⟨this.1.symm, by unfold firstBad; rw [this.2]; rfl⟩
+
+/-! ## WebSocket, target → client -/
+
+/-- One WebSocket message per `Send`, in order, payload untouched, opcode = the codec's binary flag. -/
+theorem C13_ws_out (binary : Bool) (ps : List Bytes) :
+    (wsOut binary ps).length = ps.length ∧ (wsOut binary ps).map (·.payload) = ps ∧
+    ∀ m ∈ wsOut binary ps, m.binary = binary := by
+  refine ⟨by simp [wsOut], ?_, ?_⟩
+  · simp [wsOut, wsSend, Function.comp_def]
+  · intro m hm
+    simp only [wsOut, List.mem_map] at hm
+    obtain ⟨p, _, rfl⟩ := hm
+    rfl
+
+/-! ## WebSocket: close frame -/
+
+/-- A clean end of the call closes the socket with 1000 and an empty reason. -/
+theorem C13_close_clean : closeFrame .ok = (1000, []) := by decide
+
+/-- An error closes with a non-1000 code and a reason that starts with `code <gRPC code>: `, is at
+    most 123 bytes, is a prefix of the full reason and is never cut inside a UTF-8 sequence.
+    `hstart` holds for every valid-UTF-8 status message (`closeReason` first applies `strings.ToValidUTF8`). -/
+theorem C13_close_error (c : Nat) (m : Bytes) (hc : c ≤ 16)
+    (hstart : 123 < (reasonPrefix c ++ m).length →
+      ∃ j b, 25 ≤ j ∧ j ≤ 123 ∧ (reasonPrefix c ++ m)[j]? = some b ∧ runeStart b = true) :
+    (closeFrame (.status c m)).1 = 1001 ∧
+    reasonPrefix c <+: (closeFrame (.status c m)).2 ∧
+    (closeFrame (.status c m)).2.length ≤ 123 ∧
+    (closeFrame (.status c m)).2 <+: reasonPrefix c ++ m := by
+  rw [closeFrame_reason]
+  simp only [websocketError]
+  exact ⟨trivial, closeReason_keeps_prefix _ _ (reasonPrefix_short c hc) hstart, closeReason_length _, closeReason_prefix _⟩
+
+/-- The cut never splits a rune: a shortened reason ends right before a byte that starts a rune. -/
+theorem C13_close_reason_rune_boundary (r : Bytes) (h : 123 < r.length) :
+    ∃ n, closeReason r = r.take n ∧ n ≤ 123 ∧ (n = 0 ∨ ∀ b, r[n]? = some b → runeStart b = true) := by
+  refine ⟨truncPoint r 123, ?_, truncPoint_le r 123, truncPoint_boundary r 123⟩
+  unfold closeReason maxCloseReasonLen
+  simp [Nat.not_le.2 h]
+
+set_option maxRecDepth 8000 in
+/-- What the fix removed: handing the reason to gws unmodified cuts "…é" after the first byte of
+    the `é`, leaving an invalid UTF-8 close payload that clients answer with a protocol error.
+    Witness: status Aborted with message 108×'a' ++ "é". -/
+theorem C13_close_prefix_splits_rune :
+    let m : Bytes := List.replicate 108 97 ++ [0xC3, 0xA9]
+    (closeFramePreFix (.status 10 m)).2.getLast? = some 0xC3 ∧
+    (closeFrame (.status 10 m)).2.getLast? = some 97 := by
+  decide
+
+example : closeFrame (.status 5 [110, 111]) = (1001, [99, 111, 100, 101, 32, 78, 111, 116, 70, 111, 117, 110, 100, 58, 32, 110, 111]) := by decide
+
+/-! ## non-vacuity of the LTS theorems: concrete schedules -/
+
+/-- client streaming: two frames, both delivered, call still live -/
+example :
+    let cfg : Cfg := { cs := true, body := true, expectBinary := false }
+    let f1 : Frame := { binary := false, malformed := false, text := [1] }
+    let f2 : Frame := { binary := false, malformed := false, text := [2] }
+    (GB.LTS.run (step cfg) init
+      [.clientSend f1, .clientSend f2, .recvCall, .read, .handoff, .finishOnMessage, .read, .recvCall, .handoff, .finishOnMessage]).map
+        (fun s => (s.delivered, s.result, s.done)) = some ([f1, f2], none, false) := by decide
+
+/-- non-client-streaming: only the first of two frames is delivered, the second is dropped, `Recv` then sees EOF never being called again -/
+example :
+    let cfg : Cfg := { cs := false, body := true, expectBinary := false }
+    let f1 : Frame := { binary := false, malformed := false, text := [1] }
+    let f2 : Frame := { binary := false, malformed := false, text := [2] }
+    (GB.LTS.run (step cfg) init
+      [.clientSend f1, .clientSend f2, .read, .recvCall, .handoff, .finishOnMessage, .read]).map
+        (fun s => (s.delivered, s.eventsClosed, s.pending)) = some ([f1], true, []) := by decide
+
+/-- wrong frame type: `Recv` returns the error, nothing after it is delivered -/
+example :
+    let cfg : Cfg := { cs := true, body := true, expectBinary := false }
+    let f1 : Frame := { binary := false, malformed := false, text := [1] }
+    let f2 : Frame := { binary := true, malformed := false, text := [2] }
+    (GB.LTS.run (step cfg) init
+      [.clientSend f1, .clientSend f2, .recvCall, .read, .handoff, .finishOnMessage, .read, .recvCall, .handoff]).map
+        (fun s => (s.delivered, s.result)) = some ([f1], some .wrongType) := by decide
